@@ -78,6 +78,7 @@ type Obl struct {
 
 type Ctx struct {
 	eng       *Engine
+	captured  map[string]Val // capture CALLEE as NAME
 	mode      Mode
 	sorts     *Sorts
 	pre       []string
